@@ -43,6 +43,9 @@ type env struct {
 	lines  []string // oracle lines of the ops performed
 	key    string
 	keyN   int
+	seen   map[string][2]string // payload agreement bookkeeping (main.go agree)
+	extras    [][]string         // per block of the current chain: class hashes it delivered for deployed contracts
+	goneExtra map[string]bool    // ... of blocks that were reverted
 }
 
 // stateKey is a short stable digest of the op list performed so far (distinctness key of a case).
@@ -60,7 +63,7 @@ func (e *env) stateKey() string {
 
 func newEnv(or *hx.Oracle) *env {
 	e := &env{seq: chain.NewNode(nil, true), nodes: map[string]*chain.Node{}, srv: map[string]*servers{}, or: or,
-		byID: map[int]blockInfo{}, gone: map[string]bool{}, goneTx: map[string]bool{}}
+		byID: map[int]blockInfo{}, gone: map[string]bool{}, goneTx: map[string]bool{}, goneExtra: map[string]bool{}}
 	e.nodes["legacy"] = chain.NewNode(nil, false)
 	e.nodes["new"] = chain.NewNode(nil, true)
 	for _, b := range backends {
@@ -89,6 +92,23 @@ func pairsLine(m map[uint64]uint64) string {
 	return joinOr(l)
 }
 
+// address > class hash (class references resolved to the real hash)
+func classPairsLine(m map[uint64]uint64) string {
+	var l []string
+	for _, k := range sortedKeys(m) {
+		l = append(l, h16(k)+">"+hx0(classHashOf(m[k]).String()))
+	}
+	return joinOr(l)
+}
+
+// the definition id the model carries = the payload id of the independent rendering of the class
+func defID0(def uint64) uint64 {
+	return pay.register("class", func(string) any { return renderClass0(classDef0(def)) })
+}
+func defIDS(id uint64) uint64 {
+	return pay.register("class", func(string) any { return renderClassS(sierraClass(id)) })
+}
+
 // storeLine is the oracle's form of a stored block: the hashes are the ones juno computed.
 func storeLine(b *chain.Built, s *BSpec) string {
 	var txs []string
@@ -97,8 +117,12 @@ func storeLine(b *chain.Built, s *BSpec) string {
 		if s.Txs[i].Reverted {
 			r = "1"
 		}
-		txs = append(txs, fmt.Sprintf("%s/%s/%d", hx0(t.Hash().String()), r, s.Txs[i].Events))
+		t, rc := t, b.Block.Receipts[i]
+		tp := pay.register("tx", func(v string) any { return renderTx(t, v) })
+		rp := pay.register("rc", func(v string) any { return renderReceipt(rc, t, v) })
+		txs = append(txs, fmt.Sprintf("%s/%s/%d/%x/%x", hx0(t.Hash().String()), r, s.Txs[i].Events, tp, rp))
 	}
+	hp := pay.register("hdr", func(v string) any { return renderHeader(b, v) })
 	var sto []string
 	for _, a := range sortedKeys(s.Storage) {
 		var kvs []string
@@ -111,12 +135,18 @@ func storeLine(b *chain.Built, s *BSpec) string {
 	if len(sto) > 0 {
 		stoS = strings.Join(sto, "|")
 	}
-	var decl []string
+	var decl, decl1, extra []string
 	for _, c := range s.Declare {
-		decl = append(decl, h16(c))
+		decl = append(decl, fmt.Sprintf("%x>%x", c.Hash, defID0(c.Def)))
 	}
-	return fmt.Sprintf("store %s %s %s %s %s %s %s", hx0(b.Block.Hash.String()), joinOr(txs),
-		pairsLine(s.Deploy), pairsLine(s.Replace), pairsLine(s.Nonces), stoS, joinOr(decl))
+	for _, id := range s.DeclareS {
+		decl1 = append(decl1, fmt.Sprintf("%s>%x>%x", hx0(sierraHash(id).String()), sierraCasmHash(id), defIDS(id)))
+	}
+	for _, c := range s.Extra {
+		extra = append(extra, fmt.Sprintf("%x>%x", c.Hash, defID0(c.Def)))
+	}
+	return fmt.Sprintf("store %s %x %s %s %s %s %s %s %s %s", hx0(b.Block.Hash.String()), hp, joinOr(txs),
+		classPairsLine(s.Deploy), classPairsLine(s.Replace), pairsLine(s.Nonces), stoS, joinOr(decl), joinOr(decl1), joinOr(extra))
 }
 
 func (e *env) tell(line string) {
@@ -146,6 +176,16 @@ func (e *env) apply(o Op) string {
 			bi.txs = append(bi.txs, hx0(t.Hash().String()))
 		}
 		e.cur = append(e.cur, bi)
+		var ex []string
+		for _, c := range o.Spec.Extra {
+			for _, d := range o.Spec.Deploy {
+				if d == c.Hash {
+					ex = append(ex, h16(c.Hash))
+					break
+				}
+			}
+		}
+		e.extras = append(e.extras, ex)
 		e.byID[o.ID] = bi
 		delete(e.gone, bi.hash)
 		for _, t := range bi.txs {
@@ -163,6 +203,10 @@ func (e *env) apply(o Op) string {
 		if len(e.cur) > 0 {
 			last := e.cur[len(e.cur)-1]
 			e.cur = e.cur[:len(e.cur)-1]
+			for _, h := range e.extras[len(e.extras)-1] {
+				e.goneExtra[h] = true
+			}
+			e.extras = e.extras[:len(e.extras)-1]
 			e.gone[last.hash] = true
 			for _, t := range last.txs {
 				e.goneTx[t] = true
@@ -211,10 +255,13 @@ func (g *gstate) clone() *gstate {
 }
 
 var (
-	addrU  = []uint64{10, 11, 12, 13, 14}
-	slotU  = []uint64{5, 6, 7}
-	classU = []uint64{900, 901, 902, 903}
+	addrU   = []uint64{10, 11, 12, 13, 14}
+	slotU   = []uint64{5, 6, 7}
+	class0U = []uint64{900, 901, 902, 903}                                 // Cairo-0 class hashes (904 is never declared)
+	sierraU = []uint64{1, 2}                                                // Sierra class numbers (3 is never declared)
+	classU  = []uint64{900, 901, 902, 903, sierraRef + 1, sierraRef + 2} // what deployments / replacements reference
 )
+
 
 // genSpec draws a block that respects what juno requires of a valid state diff (writes only to deployed
 // contracts, zero writes only to slots holding a value — the C04 legacy finding is not this check's business —,
@@ -222,10 +269,17 @@ var (
 func genSpec(r *hx.RNG, g *gstate, salt uint64) (*BSpec, *gstate) {
 	s := &BSpec{Salt: salt, Deploy: map[uint64]uint64{}, Replace: map[uint64]uint64{}, Nonces: map[uint64]uint64{}, Storage: map[uint64]map[uint64]uint64{}}
 	n := g.clone()
-	for _, c := range classU {
-		if !n.declared[c] && r.Chance(30) {
-			s.Declare = append(s.Declare, c)
+	for _, c := range class0U {
+		if !n.declared[c] && r.Chance(28) {
+			// the definition depends on the salt: a re-declaration on another branch brings another definition
+			s.Declare = append(s.Declare, CDecl{Hash: c, Def: c*10 + salt%7})
 			n.declared[c] = true
+		}
+	}
+	for _, id := range sierraU {
+		if !n.declared[sierraRef+id] && r.Chance(25) {
+			s.DeclareS = append(s.DeclareS, id)
+			n.declared[sierraRef+id] = true
 		}
 	}
 	for _, a := range addrU {
@@ -235,6 +289,12 @@ func genSpec(r *hx.RNG, g *gstate, salt uint64) (*BSpec, *gstate) {
 				s.Deploy[a] = c
 				n.class[a] = c
 				n.slots[a] = map[uint64]uint64{}
+				if c < sierraRef && !n.declared[c] && r.Chance(45) {
+					// as the synchroniser's data source does (fetchUnknownClasses): deliver the definition of the
+					// undeclared class of a deployed contract
+					s.Extra = append(s.Extra, CDecl{Hash: c, Def: c*10 + 7 + salt%2})
+					n.declared[c] = true
+				}
 			}
 		} else if r.Chance(15) {
 			c := classU[r.Intn(len(classU))]
@@ -264,7 +324,7 @@ func genSpec(r *hx.RNG, g *gstate, salt uint64) (*BSpec, *gstate) {
 		}
 	}
 	for i, nt := 0, r.Intn(4); i < nt; i++ {
-		s.Txs = append(s.Txs, TxSpec{Reverted: r.Chance(30), Events: r.Intn(3)})
+		s.Txs = append(s.Txs, TxSpec{Kind: txKinds[r.Intn(len(txKinds))], Reverted: r.Chance(30), Events: r.Intn(3), Msgs: r.Intn(5) / 3})
 	}
 	return s, n
 }
@@ -310,4 +370,62 @@ func genScenario(r *hx.RNG, nops int) []Op {
 		}
 	}
 	return ops
+}
+
+// directedScenarios: histories that make the class and payload cases certain instead of likely.
+func directedScenarios() [][]Op {
+	st := func(id int, s BSpec) Op { s.Salt = uint64(7000 + id); return Op{K: "store", ID: id, Spec: &s} }
+	var all []TxSpec
+	for i, k := range txKinds {
+		all = append(all, TxSpec{Kind: k, Reverted: i%4 == 1, Events: i % 3, Msgs: i % 2})
+	}
+	classes := []Op{
+		// block 0: Cairo-0 class 900 and Sierra class 1 declared and instantiated
+		st(1, BSpec{Declare: []CDecl{{900, 9001}}, DeclareS: []uint64{1}, Deploy: map[uint64]uint64{10: 900, 11: sierraRef + 1}}),
+		// block 1: 901 declared, 10 moves to it, 12 instantiates it; 13 instantiates the never declared 903
+		st(2, BSpec{Declare: []CDecl{{901, 9011}}, Deploy: map[uint64]uint64{12: 901, 13: 903}, Replace: map[uint64]uint64{10: 901},
+			Txs: all[:4]}),
+		// block 2: Sierra 2 declared; reverted below
+		st(3, BSpec{DeclareS: []uint64{2}, Deploy: map[uint64]uint64{14: sierraRef + 2}, Txs: all[4:8]}),
+		{K: "revert"},
+		{K: "revert"},
+		// the replacing block 1 declares 901 with ANOTHER definition and Sierra 2 one block earlier than before
+		st(4, BSpec{Declare: []CDecl{{901, 9012}}, DeclareS: []uint64{2}, Deploy: map[uint64]uint64{12: sierraRef + 2, 13: 901}}),
+		{K: "l1", N: 0},
+		st(5, BSpec{Declare: []CDecl{{902, 9021}}, Replace: map[uint64]uint64{11: 902, 12: 900}, Txs: all[8:]}),
+		{K: "revert"},
+		st(6, BSpec{Declare: []CDecl{{902, 9022}}, Replace: map[uint64]uint64{11: sierraRef + 2}}),
+	}
+	kinds := []Op{
+		st(11, BSpec{Txs: all}),
+		st(12, BSpec{Txs: []TxSpec{{Kind: "l1_handler", Reverted: true, Events: 2, Msgs: 1}, {Kind: "deploy_account3", Msgs: 1}}}),
+		{K: "l1", N: 0},
+		{K: "revert"},
+		st(13, BSpec{Txs: []TxSpec{{Kind: "declare3"}, {Kind: "invoke1", Reverted: true}}}),
+	}
+	// a definition delivered for a deployed contract's undeclared class behaves like a declaration, also when its
+	// block is reverted and the hash is declared (lower, with another definition) on the replacing branch
+	implicit := []Op{
+		st(21, BSpec{}),
+		st(22, BSpec{}),
+		st(23, BSpec{Extra: []CDecl{{902, 9028}}, Deploy: map[uint64]uint64{13: 902}}),
+		st(24, BSpec{Declare: []CDecl{{903, 9031}}}),
+		{K: "revert"},
+		st(25, BSpec{Declare: []CDecl{{903, 9032}}, Deploy: map[uint64]uint64{14: 902}}),
+		{K: "revert"},
+		{K: "revert"},
+		{K: "revert"},
+		st(26, BSpec{Declare: []CDecl{{902, 9026}}}),
+		st(27, BSpec{Deploy: map[uint64]uint64{13: 902}}),
+	}
+	// MISUSE of Blockchain.Store (never done by the synchroniser): a definition delivered for a class hash that the
+	// block only uses in a replace_class; Revert does not visit it. Requests for that hash are compared with the
+	// handler model only (deviation orphan-class of the model), they produce no violation.
+	misuse := []Op{
+		st(31, BSpec{Declare: []CDecl{{900, 9001}}, Deploy: map[uint64]uint64{10: 900}}),
+		st(32, BSpec{Extra: []CDecl{{902, 9028}}, Replace: map[uint64]uint64{10: 902}}),
+		{K: "revert"},
+		st(33, BSpec{Declare: []CDecl{{902, 9026}}}),
+	}
+	return [][]Op{classes, kinds, implicit, misuse}
 }
